@@ -320,7 +320,9 @@ void h_member(void)
 }
 #endif
 
-/* ---- isEmpty(): header says "whether the set lacks any members" ---- */
+/* ---- isEmpty(): not part of the C50 statement (union, difference, complement, membership).  The code returns
+ *      chars_.empty(); the storage always has 256 slots, so the result is false for EVERY set, the empty one included
+ *      (the header comment says "whether the set lacks any members").  Pinned as it is; reported as an observation. ---- */
 #if defined(T_ISEMPTY)
 void h_isempty(void)
 {
@@ -331,9 +333,9 @@ void h_isempty(void)
     for (unsigned k = 0; k < 256; k++)
         if (a[k]) none = 0;
 #ifdef TWIN
-    __CPROVER_assert(r == 1, "ensures: TWIN isEmpty is constantly true (must fail)");
+    __CPROVER_assert(r == none, "ensures: TWIN isEmpty() <=> the set has no member (must fail: it is constantly false)");
 #else
-    __CPROVER_assert(r == none, "ensures: isEmpty() <=> the set has no member");
+    __CPROVER_assert(r == 0, "pinned: isEmpty() returns false for every set, including the empty set (storage always has 256 slots)");
 #endif
 #ifdef REACH
     __CPROVER_assert(!(none == 1), "reach: the empty set");
@@ -398,13 +400,26 @@ void h_ctor_chars(void)
  *    cs_table_X evaluates the real initialiser expression of CharacterSet::X through the real constructor.
  * ===================================================================================================== */
 #if defined(T_TABLES)
+/* What the C50 statement demands is set semantics of the OPERATIONS; it does not mention the predefined constants.  The table
+ * lemma is therefore a lemma (DESIGN 5 C50), not a postcondition: 18 constants equal their RFC definition.  Two do not; for
+ * them the code's present value is PINNED (README: `pinned:`) and the deviation from the RFC is stated in the text:
+ *   CTL   = %x01-1F / %x7F in the code;  RFC 5234 B.1: CTL = %x00-1F / %x7F            (NUL missing)
+ *   CTEXT lacks %x21-27 in the code;     RFC 7230 3.2.6: ctext = HTAB / SP / %x21-27 / %x2A-5B / %x5D-7E / obs-text */
+static int code_CTL(unsigned c)   { return rfc_CTL(c) && c != 0x00; }
+static int code_CTEXT(unsigned c) { return rfc_CTEXT(c) && !(c >= 0x21 && c <= 0x27); }
+#define L(T, what) "lemma: table " #T " == " what " for every byte value"
 #define CV_TABLES(X) \
-    X(ALPHA, "RFC 5234 ALPHA") X(BIT, "RFC 5234 BIT") X(CR, "RFC 5234 CR") X(CTL, "RFC 5234 CTL") X(DIGIT, "RFC 5234 DIGIT") \
-    X(DQUOTE, "RFC 5234 DQUOTE") X(HEXDIG, "RFC 5234 HEXDIG") X(HTAB, "RFC 5234 HTAB") X(LF, "RFC 5234 LF") X(SP, "RFC 5234 SP") \
-    X(VCHAR, "RFC 5234 VCHAR") X(WSP, "RFC 5234 WSP") X(CTEXT, "RFC 7230 ctext") X(TCHAR, "RFC 7230 tchar") \
-    X(SPECIAL, "RFC 7230 delimiters") X(QDTEXT, "RFC 7230 qdtext") X(OBSTEXT, "RFC 7230 obs-text") X(ETAGC, "RFC 7232 etagc") \
-    X(TOKEN68C, "RFC 7235 token68 characters") X(RFC3986_UNRESERVED, "RFC 3986 unreserved")
-#define CV_DECL(T, what) void cs_table_##T(u8 *r_out);
+    X(ALPHA, rfc_ALPHA, L(ALPHA, "RFC 5234 ALPHA")) X(BIT, rfc_BIT, L(BIT, "RFC 5234 BIT")) X(CR, rfc_CR, L(CR, "RFC 5234 CR")) \
+    X(CTL, code_CTL, "pinned: table CTL == %x01-1F / %x7F (the code's value; RFC 5234 B.1 CTL = %x00-1F / %x7F also contains 0x00)") \
+    X(DIGIT, rfc_DIGIT, L(DIGIT, "RFC 5234 DIGIT")) \
+    X(DQUOTE, rfc_DQUOTE, L(DQUOTE, "RFC 5234 DQUOTE")) X(HEXDIG, rfc_HEXDIG, L(HEXDIG, "RFC 5234 HEXDIG")) X(HTAB, rfc_HTAB, L(HTAB, "RFC 5234 HTAB")) \
+    X(LF, rfc_LF, L(LF, "RFC 5234 LF")) X(SP, rfc_SP, L(SP, "RFC 5234 SP")) \
+    X(VCHAR, rfc_VCHAR, L(VCHAR, "RFC 5234 VCHAR")) X(WSP, rfc_WSP, L(WSP, "RFC 5234 WSP")) \
+    X(CTEXT, code_CTEXT, "pinned: table CTEXT == RFC 7230 ctext minus %x21-27 (the code's value; RFC 7230 3.2.6 ctext also contains %x21-27)") \
+    X(TCHAR, rfc_TCHAR, L(TCHAR, "RFC 7230 tchar")) X(SPECIAL, rfc_SPECIAL, L(SPECIAL, "RFC 7230 delimiters")) \
+    X(QDTEXT, rfc_QDTEXT, L(QDTEXT, "RFC 7230 qdtext")) X(OBSTEXT, rfc_OBSTEXT, L(OBSTEXT, "RFC 7230 obs-text")) X(ETAGC, rfc_ETAGC, L(ETAGC, "RFC 7232 etagc")) \
+    X(TOKEN68C, rfc_TOKEN68C, L(TOKEN68C, "RFC 7235 token68 characters")) X(RFC3986_UNRESERVED, rfc_RFC3986_UNRESERVED, L(RFC3986_UNRESERVED, "RFC 3986 unreserved"))
+#define CV_DECL(T, pred, msg) void cs_table_##T(u8 *r_out);
 CV_TABLES(CV_DECL)
 #ifdef TWIN   /* one deliberately wrong reference definition per group: the check must fail at exactly that table */
 #define rfc_ALPHA(c) (rfc_ALPHA(c) || (c) == '_')          /* group 0: '_' is not ALPHA */
@@ -415,10 +430,10 @@ CV_TABLES(CV_DECL)
 #ifndef G
 #define G 0
 #endif
-#define CV_CHECK(T, what) \
+#define CV_CHECK(T, pred, msg) \
     if (idx++ / 5 == G) { u8 t[256]; cs_table_##T(t); \
       for (unsigned c = 0; c < 256; c++) \
-          __CPROVER_assert(t[c] == (rfc_##T(c) ? 1 : 0), "ensures: table " #T " == " what " for every byte value"); \
+          __CPROVER_assert(t[c] == (pred(c) ? 1 : 0), msg); \
       reached++; }
 void h_tables(void)
 {
@@ -429,7 +444,7 @@ void h_tables(void)
         u8 v[256], s[256], tc[256];
         cs_table_VCHAR(v); cs_table_SPECIAL(s); cs_table_TCHAR(tc);
         for (unsigned c = 0; c < 256; c++)
-            __CPROVER_assert(tc[c] == (v[c] && !s[c]), "ensures: table TCHAR == VCHAR minus SPECIAL (RFC 7230 3.2.6: any VCHAR, except delimiters)");
+            __CPROVER_assert(tc[c] == (v[c] && !s[c]), "lemma: table TCHAR == VCHAR minus SPECIAL (RFC 7230 3.2.6: any VCHAR, except delimiters)");
     }
 #ifdef REACH
     __CPROVER_assert(!(reached == 5), "reach: all 5 tables of this group evaluated");
@@ -439,8 +454,9 @@ void h_tables(void)
 #endif
 
 /* =====================================================================================================
- * 4. Frame, in the memory sense (goto-instrument --dfcc, thorough tier): the operation + wrapper write nothing but the
- *    output arrays (assigns clause); same postconditions as part 2.
+ * 4. Frame, in the memory sense (goto-instrument --dfcc, thorough tier, operator+= only: the same check on complement()
+ *    did not finish in 25 min on the shared machine and was dropped): the operation + wrapper write nothing but the output
+ *    arrays (assigns clause); same postconditions as part 2.
  * ===================================================================================================== */
 #define FRESH(p) __CPROVER_is_fresh(p, 256)
 #define SETQ(v, p)  __CPROVER_forall { unsigned v; (v < 256) ==> ((p)[v] <= 1) }
@@ -468,31 +484,6 @@ void h_frame_union(void)
 #ifdef REACH
     __CPROVER_assert(!(r == 1 && ga == 0 && gb == 1), "reach: a byte that only the right operand has");
     __CPROVER_assert(!(r == 1 && ga == 1 && gb == 0 && gi == 255), "reach: byte 255 only in the left operand");
-#endif
-}
-#endif
-
-#if defined(T_FRAME_COMPLEMENT)
-int cs_complement(const u8 *a, int label_null, u8 *r_out, u8 *a_out)
-__CPROVER_requires(FRESH(a) && FRESH(r_out) && FRESH(a_out))
-__CPROVER_requires(SETQ(i1, a))
-__CPROVER_requires(gi < 256 && a[gi] == ga)
-__CPROVER_assigns(__CPROVER_object_whole(r_out), __CPROVER_object_whole(a_out))
-#ifdef TWIN
-__CPROVER_ensures(ALL(k, r_out[k] == a[k]))
-#else
-__CPROVER_ensures(ALL(k, r_out[k] == 1 - a[k]))
-#endif
-__CPROVER_ensures(ALL(j, a_out[j] == a[j]))
-__CPROVER_ensures(__CPROVER_return_value == 1)
-;
-void h_frame_complement(void)
-{
-    u8 *a, *ro, *ao; int label_null;
-    int r = cs_complement(a, label_null, ro, ao);
-#ifdef REACH
-    __CPROVER_assert(!(r == 1 && ga == 1 && gi == 0 && label_null), "reach: byte 0 member, default label");
-    __CPROVER_assert(!(r == 1 && ga == 0 && gi == 255 && !label_null), "reach: byte 255 not a member, given label");
 #endif
 }
 #endif
